@@ -252,6 +252,21 @@ def python_struct(sk, name):
         f.ident = (ls + m.start(1), ls + m.end(1))
         ty = m.group(2)
         ts, te = ls + m.start(2), ls + m.end(2)
+        if ty.startswith("Annotated[") and ty.endswith("]"):
+            # Annotated[<type>, BeforeValidator(..), PlainSerializer(..)]: the field's type is the first argument
+            depth, cut = 0, None
+            for k in range(len("Annotated["), len(ty)):
+                ch = ty[k]
+                if ch in "[(":
+                    depth += 1
+                elif ch in "])":
+                    depth -= 1
+                elif ch == "," and depth == 0:
+                    cut = k
+                    break
+            if cut is not None:
+                ts, te = ts + len("Annotated["), ts + cut
+                ty = ty[len("Annotated["):cut]
         if ty.startswith("Optional[") and ty.endswith("]"):
             f.optional = True
             ts, te = ts + len("Optional["), te - 1
